@@ -56,13 +56,13 @@ func main() {
 		return !strings.Contains(name, "ImportTriMesh") && !strings.Contains(name, "ImportSTL") && !strings.Contains(name, "Mesh3D") && !strings.Contains(name, "CubicSpline")
 	}
 	var n2 []shapes.N2
-	for _, n := range shapes.Nodes2(true) {
+	for _, n := range shapes.Nodes2(vlib.Pick(c, 1, 2)) {
 		if cont(n.Name) {
 			n2 = append(n2, n)
 		}
 	}
 	var n3 []shapes.N3
-	for _, n := range shapes.Nodes3(true) {
+	for _, n := range shapes.Nodes3(vlib.Pick(c, 1, 2)) {
 		if cont(n.Name) {
 			n3 = append(n3, n)
 		}
